@@ -1356,15 +1356,21 @@ class Concatenate(CanBehaveLikeAVariable[T]):
             yield sources
             return
         all_values = defaultdict(list)
-        for child_v in self._child_._evaluate__(sources):
-            child_v = copy(child_v)
-            for id_, val in child_v.items():
-                if id_ == self._child_._id_:
-                    child_v_unwrapped = val.value
-                    if not is_iterable(child_v_unwrapped):
-                        child_v_unwrapped = [child_v_unwrapped]
-                    all_values[self._id_].extend(child_v_unwrapped)
-                all_values[id_].append(val)
+        # what is concatenated is used as a value here, also when the same expression object is a condition somewhere else.
+        previous_eval_parent = self._child_._eval_parent_
+        self._child_._eval_parent_ = self
+        try:
+            for child_v in self._child_._evaluate__(sources):
+                child_v = copy(child_v)
+                for id_, val in child_v.items():
+                    if id_ == self._child_._id_:
+                        child_v_unwrapped = val.value
+                        if not is_iterable(child_v_unwrapped):
+                            child_v_unwrapped = [child_v_unwrapped]
+                        all_values[self._id_].extend(child_v_unwrapped)
+                    all_values[id_].append(val)
+        finally:
+            self._child_._eval_parent_ = previous_eval_parent
         # what was bound before the concatenation was evaluated keeps its own value (it is not turned into a list of
         # copies of itself, one per concatenated row).
         result = {k: HashedValue(v) for k, v in all_values.items() if k not in sources}
